@@ -349,10 +349,37 @@ func gcSpecs(prop string, tier string, reclaim bool) []*XSpec {
 		}
 		return &XSpec{Property: prop, Name: name, Cfg: c, Alphabet: al, Depth: L + 4, Keys: ks, Exec: gcExec(reclaim), Prune: pr}
 	}
-	if tier == "quick" {
-		return []*XSpec{mk(cfgGC1(), 3, 2), mk(cfgGC2(), 5, 1), mk(cfgGC1(), 4, 0), mk(cfgGC2(), 5, -2)}
+	// non-initial start state: file 0 is a short file left by an earlier process ([a]), file 1 is full ([b][c]); then every
+	// layout of 3 more sets over five keys, a pass, and a second pass in the same process: the first pass can GROW the short
+	// file in place, the second one has to pick its destination from what the first one left in memory
+	grow := mk(cfgGC2(), 3, -2)
+	keys5 := []string{"a", "b", "c", "d", "e"}
+	grow.Prefix = []Op{{K: "set", V: "s", Key: "a"}, {K: "restart", A: []int{0}}, {K: "set", V: "s", Key: "b"}, {K: "set", V: "s", Key: "c"}}
+	grow.Name = cfgGC2().Name + "-after-short-file-L3-then-second-pass"
+	grow.Alphabet = append(perKey(keys5, Op{K: "set", V: "s"}), post...)
+	grow.Keys = keys5
+	{
+		base := gcPrune(3, -2, false)
+		grow.Prune = func(hist []Op, op Op) bool {
+			if op.K == "restart" && !gcSeen(hist) {
+				return true // sets only before the first pass
+			}
+			return base(hist, op) || symmetricKeys(keys5, append(append([]Op{}, grow.Prefix...), hist...), op)
+		}
 	}
-	return []*XSpec{mk(cfgGC1(), 4, 2), mk(cfgGC2(), 5, 2), mk(cfgGC1(), 5, 1), mk(cfgGC2(), 7, 1), mk(cfgGC3(), 9, 0)}
+	if tier == "quick" {
+		return []*XSpec{mk(cfgGC1(), 3, 2), mk(cfgGC2(), 5, 1), mk(cfgGC1(), 4, 0), mk(cfgGC2(), 5, -2), grow}
+	}
+	return []*XSpec{mk(cfgGC1(), 4, 2), mk(cfgGC2(), 5, 2), mk(cfgGC1(), 5, 1), mk(cfgGC2(), 7, 1), mk(cfgGC3(), 9, 0), grow}
+}
+
+func gcSeen(hist []Op) bool {
+	for _, o := range hist {
+		if o.K == "gc" {
+			return true
+		}
+	}
+	return false
 }
 
 func C03(job *Job, r *Report) {
